@@ -5,6 +5,7 @@ package routing
 // Contracts for the verifier in /verif (comment-only file; no declarations).
 
 //@ func muskingum(inflows, laterals, s, prevInflow, prevOutflow, k, x, deltaT, outflows) returns (rs, rIn, rOut)
+//@   canary [C11.canary-muskingum] implies(inflows.len > 0, outflows.at(0) == inflows.at(0))
 //@   kernel
 //@   states s, prevInflow, prevOutflow
 //@   noalias
